@@ -128,9 +128,17 @@ class ServeManifest(RequestHandlerBase):
                 if pos != options.updateCount:
                     continue
             else:
+                if not isinstance(options.availabilityStartTime, datetime.datetime):
+                    # a time of day can only be located in a live stream
+                    continue
                 tm = options.availabilityStartTime.replace(
                     hour=pos.hour, minute=pos.minute, second=pos.second)
-                tm2 = tm + datetime.timedelta(seconds=options.minimumUpdatePeriod)
+                # options.minimumUpdatePeriod is None unless mup= was given; the
+                # manifest context holds the period that is actually in use
+                update_period = context['mpd'].minimumUpdatePeriod
+                if update_period is None:
+                    update_period = 0
+                tm2 = tm + datetime.timedelta(seconds=update_period)
                 if context['mpd'].now < tm or context['mpd'].now > tm2:
                     continue
             if (
